@@ -1243,6 +1243,26 @@ fn exec_op(op: &Value, ctx: &mut Ctx) {
                 panic!("harness: kill needs stakker");
             }
         }
+        "dkill" => {
+            // kill!(owner, ...): takes another owner and defers a closure that kills through it
+            let oid = get_i(op, "oid");
+            let code = op["code"].as_str().unwrap().to_string();
+            let own = w(|w| w.owns.remove(&oid));
+            if let Some(h) = own {
+                ev(format!(r#"{{"e":"dkill","aid":{},"code":"{}"}}"#, h.aid, code));
+                {
+                    let o = h.own.as_ref().unwrap();
+                    if structured(&code) {
+                        kill!(o, herr(&code) as Box<dyn std::error::Error>);
+                    } else {
+                        kill!(o, "{}", code);
+                    }
+                }
+                w(|w| w.owns.insert(oid, h));
+            } else {
+                ev(format!(r#"{{"e":"nop","why":"no owner {}"}}"#, oid));
+            }
+        }
         "owndrop" => {
             let oid = get_i(op, "oid");
             let h = w(|w| w.owns.remove(&oid));
